@@ -178,7 +178,7 @@ class Rpms(productmd.common.MetadataBase):
         if sigkey is not None:
             sigkey = sigkey.lower()
 
-        if srpm_nevra:
+        if srpm_nevra is not None:
             srpm_nevra, _ = self._check_nevra(srpm_nevra)
         else:
             srpm_nevra = nevra
